@@ -21,8 +21,11 @@ PROFILE = {
                 n=dict(quick=60, thorough=500), shadow=1,
                 mc_timeout=dict(quick=600, thorough=3000)),
     "C03": dict(mc=dict(quick=["mc_c03_quick"], thorough=["mc_c03_quick", "mc_c03_thorough"]),
-                gen=dict(MaxDisc=5, MaxAdds=4, MaxFees=3, MaxLen=120),
-                n=dict(quick=60, thorough=500), shadow=1,
+                gen=dict(MaxDisc=6, MaxAdds=4, MaxFees=3, MaxLen=120),
+                n=dict(quick=90, thorough=600), shadow=1,
+                # legacy (non-tweakless) channels are the only ones that verify the data-loss-protect commit point
+                # in channel_reestablish: give them a larger share of the resync traces
+                types="legacy,tweakless,anchors,legacy,zerofee,lease,legacy,taproot,taprootfinal,legacy",
                 mc_timeout=dict(quick=600, thorough=3000)),
     "C06": dict(mc=dict(quick=[], thorough=[]),
                 gen=dict(MaxDisc=2, MaxAdds=3, MaxFees=1, MaxLen=80),
@@ -94,7 +97,7 @@ def run_channel(ck, prop, extra_overlay=None):
                         constants={k: v for k, v in g.items()}, timeout=1500)
     # (c) the real channels
     res = ck.go_test("./lnwallet/", "^TestVerifChannelExec$", ["lnwallet/channel_exec_test.go"],
-                     env={"VERIF_SCHED": os.path.dirname(files[0]), "VERIF_TYPES": ALL_TYPES,
+                     env={"VERIF_SCHED": os.path.dirname(files[0]), "VERIF_TYPES": prof.get("types", ALL_TYPES),
                           "VERIF_SHADOW_EVERY": prof["shadow"]},
                      timeout=3000, extra_overlay=extra_overlay)
     trace = os.path.join(res["dir"], "trace.ndjson")
